@@ -266,3 +266,206 @@ Section ObservedRun.
     rewrite Hre. cbn [bind]. unfold post. subst o. destruct (cfamily c); try discriminate; reflexivity.
   Qed.
 End ObservedRun.
+
+(* ------------------------------------------------------------------ the 2.0 form: `objects`, a dictionary of observables *)
+Section Observed20.
+  Variable vr : variant.
+  Variable ev : env.
+  Variable w : world.
+  Variable pattern_ok : ver -> ustring -> bool.
+  Variable selectors_ok : list (ustring * pval) -> pval -> result bool.
+  Hypothesis Hpad : vr_year_pad vr = true.
+  Variable ids : list ustring.
+  Hypothesis Hclosed : closed_okw vr w ids = true.
+
+  Notation RUN := (run vr ev w pattern_ok selectors_ok).
+
+  Definition TYPE : ustring := u "type".
+
+  (* the classes covered, and the observables of a 2.0 container *)
+  Definition PO (cid0 : ustring) : bool := ustr_eqb cid0 (obs_tag V20) || nestable w ids cid0.
+
+  Definition type_slot_ok (c : cls) : bool :=
+    match slot_of c TYPE with
+    | None => true
+    | Some sl => match skind sl with KFixed _ _ => true | _ => false end
+    end.
+
+  (* every registered 2.0 observable type leads to a covered class whose `type` is a fixed property *)
+  Definition observables20_ok : bool :=
+    forallb (fun kv => nestable w ids (snd kv) &&
+                       match find_class (wclasses w) (snd kv) with Some c => type_slot_ok c | None => false end)
+            (robservables (wreg20 w)) &&
+    match find_class (wclasses w) (obs_tag V20) with None => true | Some _ => false end.
+
+  Lemma run_construct_novr : forall g k a i kw v o,
+    RUN (S g) (RConstruct k a i kw v) = Ok o -> amem (u "_valid_refs") kw = false.
+  Proof.
+    intros g k a i kw v o H. cbn [run] in H. destruct (find_class (wclasses w) k); try discriminate.
+    destruct (amem (u "_valid_refs") kw); [discriminate | reflexivity].
+  Qed.
+
+  (* the `type` given is the `type` written *)
+  Lemma construct_type_kept : forall g k a i d vrefs o c t,
+    nestable w ids k = true -> find_class (wclasses w) k = Some c -> type_slot_ok c = true ->
+    plain_dict d = true -> alookup TYPE d = Some (JStr t) ->
+    RUN (S g) (RConstruct k a i d vrefs) = Ok o ->
+    alookup TYPE (omem o) = Some (JStr t).
+  Proof.
+    intros g k a i d vrefs o c t Hn Ef Hts Hp Et H.
+    pose proof Hn as Hn'. unfold nestable in Hn'. apply andb_true_iff in Hn'. destruct Hn' as [Hm _].
+    destruct (run_construct_eff vr ev w pattern_ok selectors_ok Hpad ids Hclosed g k a i d vrefs o Hm Hp (nestable_given w ids k d Hn) H)
+      as [c' [Ef' [_ Heff]]].
+    rewrite Ef in Ef'. inversion Ef'; subst c'. clear Ef'.
+    unfold effective in Heff.
+    destruct Heff as [cE [rcE [PE [dE [Hrc [Hnd [Hslots [Hcg [HpE [Hagree [EcidE [EdflE [HslotE _]]]]]]]]]]]]].
+    set (rp := fun a0 i0 d0 => RUN g (RParse a0 i0 None d0)) in *.
+    set (ro := fun vv0 refs a0 d0 => RUN g (RParseObs (Some vv0) refs a0 false d0)) in *.
+    destruct (cg_idem vr ev w pattern_ok selectors_ok rcE rp ro PE Hpad Hrc cE a i _ Hnd Hslots (S g) dE _ HpE Hcg)
+      as [Sv [hc [Eobj _]]].
+    subst o. unfold omem. rewrite encode_obj. fold (written cE Sv).
+    assert (K1 : TYPE <> PVERSION) by (intros E; vm_compute in E; discriminate).
+    assert (K2 : TYPE <> DEF) by (intros E; vm_compute in E; discriminate).
+    assert (K3 : TYPE <> CREATED) by (intros E; vm_compute in E; discriminate).
+    pose proof (cg_given_value vr ev w pattern_ok selectors_ok rcE rp ro cE a i _ Hnd (S g) dE Sv _ hc TYPE (JStr t) HpE Hcg) as Hv.
+    rewrite (Hagree TYPE K1) in Hv. specialize (Hv Et). rewrite (HslotE TYPE K2 K3) in Hv.
+    assert (Es : alookup TYPE Sv = Some (PJ (JStr t))).
+    { unfold type_slot_ok in Hts. destruct (slot_of c TYPE) as [sl |]; [| exact Hv].
+      destruct Hv as [v [h [E1 E2]]]. destruct (skind sl); try discriminate. cbn [clean_kind] in E2.
+      destruct (jvalue_eqb (JStr t) (JStr v0)); try discriminate. inversion E2; subst. exact E1. }
+    rewrite (written_stored vr PE cE Hnd Hslots Sv TYPE _ Es); [reflexivity | intros b Hb; discriminate].
+  Qed.
+
+  Lemma assoc_In' : forall t k m, assoc t m = Some k -> In (t, k) m.
+  Proof.
+    induction m as [| [k' v'] r IHm]; cbn [assoc]; intros E; try discriminate.
+    destruct (ustr_eqb t k') eqn:Et; [apply ustr_eqb_eq in Et; subst; inversion E; left; reflexivity | right; apply IHm; exact E].
+  Qed.
+
+  Lemma refs_members_plain : forall l : list (ustring * ustring), refs_plain l = true ->
+    forallb plain_member (map (fun kv => (fst kv, JStr (snd kv))) l) = true.
+  Proof.
+    induction l as [| [k t] r IH]; intros H; [reflexivity |].
+    unfold refs_plain in *. cbn [forallb fst] in H. apply andb_true_iff in H. destruct H as [Hk Hr].
+    cbn [map forallb fst snd]. unfold plain_member at 1. cbn [fst snd nullish plain_json negb andb]. rewrite Hk. cbn [andb].
+    apply IH. exact Hr.
+  Qed.
+
+  Lemma refs_json_plain : forall refs, refs <> [] -> refs_plain refs = true ->
+    plain_member (u "_valid_refs", refs_json refs) = true.
+  Proof.
+    intros refs Hne Hrp. unfold plain_member. cbn [fst snd].
+    assert (E1 : ustr_eqb (u "_valid_refs") cp_key = false) by (vm_compute; reflexivity).
+    assert (E2 : ustr_eqb (u "_valid_refs") ext_key = false) by (vm_compute; reflexivity).
+    rewrite E1, E2. cbn [negb andb].
+    unfold refs_json. destruct refs as [| r0 rs]; [contradiction |]. cbn [nullish negb andb].
+    rewrite plain_json_obj. apply refs_members_plain. exact Hrp.
+  Qed.
+
+  Lemma ro20_idem : observables20_ok = true -> forall f,
+    ro_idem_at (fun vv refs a d => RUN f (RParseObs (Some vv) refs a false d)) V20.
+  Proof.
+    intros Hok f refs a d p Hne Hrp Hp H.
+    unfold observables20_ok in Hok. apply andb_true_iff in Hok. destruct Hok as [Hreg _].
+    destruct f as [| g]; [cbn [run] in H; discriminate |].
+    remember g as g0 eqn:Eg0. cbn [run] in H. fold TYPE in H.
+    destruct (alookup TYPE d) as [ty |] eqn:Ety; try discriminate. cbn [bind] in H.
+    destruct ty as [| | | | t | |]; try discriminate.
+    all: try (destruct a; [| discriminate]; inversion H; subst p; clear H).
+    all: try (cbn [encode]; unfold omem; cbn [encode];
+              split; [reflexivity |]; split; [| split];
+              [ cbn [run]; fold TYPE; rewrite alookup_aset_other by (intros E; vm_compute in E; discriminate); rewrite Ety;
+                cbn [bind]; rewrite aset_aset; reflexivity
+              | apply plain_dict_aset; [exact Hp | apply refs_json_plain; assumption]
+              | apply alookup_aset_other; intros E; vm_compute in E; discriminate ]; fail).
+    (* a string type *)
+    destruct (class_for w t V20 1%N) as [k |] eqn:Ecf.
+    - destruct (amem (u "_valid_refs") d) eqn:Evr; try discriminate. unfold bind in H.
+      destruct (run vr ev w pattern_ok selectors_ok g0 (RConstruct k a false d (Some refs))) as [o | |] eqn:Er; try discriminate.
+      destruct (vr_parse_guard_custom vr && negb a && pval_has_custom o) eqn:Egd; try discriminate. inversion H; subst p. clear H.
+      pose proof Ecf as Ecf2.
+      unfold class_for in Ecf. cbn in Ecf. apply assoc_In' in Ecf. rewrite forallb_forall in Hreg. specialize (Hreg _ Ecf). cbn [snd] in Hreg.
+      apply andb_true_iff in Hreg. destruct Hreg as [Hn Hc].
+      destruct (find_class (wclasses w) k) as [c |] eqn:Ef; try discriminate.
+      pose proof Hn as Hn'. unfold nestable in Hn'. apply andb_true_iff in Hn'. destruct Hn' as [Hm _].
+      destruct g0 as [| g1]; [cbn [run] in Er; discriminate |].
+      destruct (run_construct_idem vr ev w pattern_ok selectors_ok Hpad ids Hclosed (S g1) k a false d (Some refs) o Hm Hp
+                  (nestable_given w ids k d Hn) Er) as [E1 [_ [E3 E4]]].
+      pose proof (construct_type_kept g1 k a false d (Some refs) o c t Hn Ef Hc Hp Ety Er) as Ety'.
+      split; [exact E1 |]. split; [| split; [exact E4 | change (alookup TYPE (omem o) = alookup TYPE d); rewrite Ety', Ety; reflexivity]].
+      remember (S g1) as g2. cbn [run]. fold TYPE. rewrite Ety'. cbn [bind].
+      rewrite Ecf2. subst g2. rewrite (run_construct_novr g1 k a false (omem o) (Some refs) o E3). unfold bind. rewrite E3, Egd. reflexivity.
+    - destruct a; [| discriminate]. inversion H; subst p. clear H.
+      cbn [encode]. unfold omem. cbn [encode].
+      split; [reflexivity |]. split; [| split].
+      + cbn [run]. fold TYPE. rewrite alookup_aset_other by (intros E; vm_compute in E; discriminate). rewrite Ety.
+        cbn [bind]. rewrite Ecf. rewrite aset_aset. reflexivity.
+      + apply plain_dict_aset; [exact Hp | apply refs_json_plain; assumption].
+      + apply alookup_aset_other. intros E. vm_compute in E. discriminate.
+  Qed.
+  Definition observed20_ok (c : cls) : bool :=
+    init_ok vr (cinit c) &&
+    match cfamily c with FSco => false | _ => true end &&
+    nodupb (map sname (cslots c)) &&
+    forallb (slot_ok vr PO) (cslots c) &&
+    observables20_ok.
+
+  Lemma rc_idem_PO : observables20_ok = true -> forall f,
+    rc_idem (fun k a i kw0 => RUN f (RConstruct k a i kw0 None)) (fun vv refs a d => RUN f (RParseObs (Some vv) refs a false d)) PO.
+  Proof.
+    intros Hok f. split.
+    - intros cid0 a i d o HP Hp H. unfold PO in HP. destruct (ustr_eqb cid0 (obs_tag V20)) eqn:E.
+      + exfalso. apply ustr_eqb_eq in E. subst cid0.
+        unfold observables20_ok in Hok. apply andb_true_iff in Hok. destruct Hok as [_ Hno].
+        destruct f as [| g]; cbn [run] in H; [discriminate |].
+        destruct (find_class (wclasses w) (obs_tag V20)); discriminate.
+      + cbn [orb] in HP.
+        exact (proj1 (claim_rc vr ev w pattern_ok selectors_ok ids f (run_construct_idem vr ev w pattern_ok selectors_ok Hpad ids Hclosed f))
+                 cid0 a i d o HP Hp H).
+    - intros vv HP. destruct vv.
+      + apply ro20_idem. exact Hok.
+      + unfold PO in HP. rewrite nestable_no_tag in HP. vm_compute in HP. discriminate.
+  Qed.
+
+  (* roundtrip_equal for ObservedData in its 2.0 form *)
+  Theorem observed20_roundtrip : forall fuel kid allow interop kw vrefs o c,
+    find_class (wclasses w) kid = Some c -> observed20_ok c = true ->
+    plain_dict kw = true ->
+    RUN fuel (RConstruct kid allow interop kw vrefs) = Ok o ->
+    RUN fuel (RConstruct kid allow interop (omem o) vrefs) = Ok o.
+  Proof.
+    intros fuel kid allow interop kw vrefs o c Ef Hok Hp H.
+    destruct fuel as [| f]; [cbn [run] in H; discriminate |].
+    unfold observed20_ok in Hok.
+    apply andb_true_iff in Hok. destruct Hok as [Hok Hobs]. apply andb_true_iff in Hok. destruct Hok as [Hok Hslots].
+    apply andb_true_iff in Hok. destruct Hok as [Hok Hnd]. apply andb_true_iff in Hok. destruct Hok as [Hinit Hfam].
+    apply nodupb_NoDup in Hnd.
+    assert (Hiw : init_okw vr w ids c = true) by (unfold init_okw; rewrite Hinit; reflexivity).
+    rewrite (run_unfold vr ev w pattern_ok selectors_ok ids f kid allow interop kw vrefs c Ef Hiw) in H.
+    rewrite (run_unfold vr ev w pattern_ok selectors_ok ids f kid allow interop _ vrefs c Ef Hiw).
+    destruct (amem (u "_valid_refs") kw || amem (u "allow_custom") kw || amem (u "interoperability") kw || amem (u "self") kw) eqn:Eres;
+      try discriminate.
+    destruct (reserved_split kw Eres) as [R1 [R2 [R3 R4]]].
+    set (vrf := match cfamily c with FSco => Some match vrefs with Some r => r | None => [] end | _ => None end) in *.
+    assert (Hg : forall kw', plain_dict kw' = true ->
+                   init_expr vr ev w pattern_ok selectors_ok f c allow interop kw' vrf =
+                   GEN vr ev w pattern_ok selectors_ok f c allow interop kw' [] vrf).
+    { intros kw' Hp'. unfold init_expr. destruct (cinit c) as [| names | | | vv | |]; cbn [init_ok] in Hinit; try discriminate; auto.
+      rewrite (pos_filter_id vr names kw' Hinit (plain_members_nonnull kw' Hp')). reflexivity. }
+    rewrite (Hg kw Hp) in H. unfold GEN in *. unfold bind in H.
+    match type of H with match ?g with _ => _ end = _ => destruct g as [obj | |] eqn:Eg; try discriminate end.
+    assert (Eo : o = obj).
+    { unfold post in H. destruct obj; try (inversion H; reflexivity). destruct (cfamily c); try discriminate; inversion H; reflexivity. }
+    subst obj.
+    destruct (written_facts vr ev w pattern_ok selectors_ok _ _ _ PO Hpad (rc_idem_PO Hobs f) c allow interop vrf
+                Hnd Hslots (S f) kw o Hp Eg) as [Sv [hc [Eobj [Hre [Hpl [Hresv Hgiv]]]]]].
+    assert (Eom : omem o = written c Sv) by (subst o; unfold omem; rewrite encode_obj; reflexivity).
+    rewrite Eom.
+    assert (In1 : In (u "_valid_refs") reserved_names) by (unfold reserved_names; cbn [map In]; repeat (try (left; reflexivity); right)).
+    assert (In2 : In (u "allow_custom") reserved_names) by (unfold reserved_names; cbn [map In]; repeat (try (left; reflexivity); right)).
+    assert (In3 : In (u "interoperability") reserved_names) by (unfold reserved_names; cbn [map In]; repeat (try (left; reflexivity); right)).
+    assert (In4 : In (u "self") reserved_names) by (unfold reserved_names; cbn [map In]; repeat (try (left; reflexivity); right)).
+    rewrite (Hresv _ In1 R1), (Hresv _ In2 R2), (Hresv _ In3 R3), (Hresv _ In4 R4). cbn [orb].
+    rewrite (Hg _ Hpl). unfold GEN. rewrite Hre. cbn [bind]. unfold post. subst o. destruct (cfamily c); try discriminate; reflexivity.
+  Qed.
+End Observed20.
